@@ -317,6 +317,49 @@ def len_rule(rep, u, fname):
             rep.proved("R-LEN", fn, "returned-size:" + rv["n"], desc)
 
 
+def url_decode_rule(rep, u, fname="http_url_decode"):
+    """URL unescape, one input position at a time, for every byte value: a '%' escape yields exactly the escaped byte
+    (whatever it is), '+' yields a space, every other byte is copied.  Each output byte comes from exactly one of the three
+    rules (an escape that decodes to '+' stays '+')."""
+    from rules import r_stride
+    fn = u.fn(fname)
+    if fn is None or not fn.has_cfg:
+        raise driver.AnalysisBroken("anchor %s vanished" % fname)
+    rep.functions.add(fname)
+    URL, BUF = 0x10000, 0x20000
+    pn = [p["n"] for p in fn.params]
+    bad = undec = None
+    n = 0
+    for esc, v in [(False, c) for c in range(256) if c != 0x25] + [(True, c) for c in range(256)]:
+        pe = r_stride.PE(u, call_default={"ustrh2u32": v, "strh2u32": v, "ustrh2u8": v})
+        data = [0x25, 0x58, 0x58] if esc else [v]
+        for i, b_ in enumerate(data):
+            pe.memory[URL + i] = b_
+        ev, ret = pe.trace(fn, {pn[0]: URL, pn[1]: len(data), pn[2]: BUF, pn[3]: 8})
+        what = ("escape decoding to 0x%02x" % v) if esc else ("byte 0x%02x" % v)
+        if isinstance(ret, str):
+            undec = undec or "%s: %s" % (what, ret)
+            continue
+        first = None
+        for e, b in ev:
+            for x, ps in walk(e):
+                if first is None and x.get("k") == "bin" and x["op"] == "=" and core.strip_casts(x["x"]).get("k") == "un" and \
+                        core.strip_casts(x["x"]).get("op") == "*":
+                    try:
+                        first = r_mpt.eval_expr(x["y"], {}, pe._hook(b, {})) & 0xff
+                    except (r_mpt.Unknown, KeyError, TypeError):
+                        first = -1
+        n += 1
+        want = v if esc else (0x20 if v == 0x2b else v)
+        if first is None or first < 0:
+            undec = undec or "%s: stored byte not computable" % what
+        elif first != want:
+            bad = bad or "%s is stored as 0x%02x instead of 0x%02x" % (what, first, want)
+    desc = "%s: every escape yields the escaped byte, '+' yields a space, other bytes are copied (all 256 byte values in both roles)" % fname
+    (rep.violated if bad else rep.undecided if undec else rep.proved)("R-SPEC", fn, "url-unescape", desc, bad or undec or "%d cases" % n)
+    return n
+
+
 def run(rep, tier):
     hs = ["utils/base64.h", "utils/num2str.h", "utils/str2num.h", "utils/strh2num.h", "utils/utf8.h", "math/crc32.h"]
     srcs = ["src/utils/xml.c", "src/utils/buf_str.c", "src/proto/http.c"]
@@ -327,6 +370,7 @@ def run(rep, tier):
     rep.floor("digit-count loops", n, 20)
     neg_rule(rep, us["utils/num2str.h"])
     len_rule(rep, us["utils/utf8.h"], "utf8_decode")
+    rep.floor("URL unescape byte cases", url_decode_rule(rep, us["src/proto/http.c"]), 500)
     return driver.finish(
         rep, "other",
         "Static analysis of the codec tables and of three structural rules. Decided: Base64 alphabet/inverse table, pow10lst, all CRC-32 "
